@@ -78,27 +78,27 @@ mod vharness {
     }
     //@harness name=pad_arr_empty props=C19,C18 strength=bounded bound="s = '' (concrete), fw in 0..=8 and the '-' flag symbolic, previous output 'xy'" clause="padded field = s plus max(0, fw - chars(s)) spaces on the correct side; never shorter than fw characters" timeout=600 replay=fmt_pad:arr:empty
     pad_inst!(pad_arr_empty, pad_block_array, "", 0);
-    //@harness name=pad_obj_empty props=C19,C18 strength=bounded bound="s = '' (concrete), fw in 0..=8 and the '-' flag symbolic, previous output 'xy'" clause="padded field = s plus max(0, fw - chars(s)) spaces on the correct side; never shorter than fw characters" timeout=600 replay=fmt_pad:obj:empty tier=thorough
+    //@harness name=pad_obj_empty props=C19,C18 strength=bounded bound="s = '' (concrete), fw in 0..=8 and the '-' flag symbolic, previous output 'xy'" clause="padded field = s plus max(0, fw - chars(s)) spaces on the correct side; never shorter than fw characters" timeout=600 replay=fmt_pad:obj:empty
     pad_inst!(pad_obj_empty, pad_block_object, "", 0);
     //@harness name=pad_arr_a props=C19,C18 strength=bounded bound="s = 'a' (concrete), fw in 0..=8 and the '-' flag symbolic, previous output 'xy'" clause="padded field = s plus max(0, fw - chars(s)) spaces on the correct side; never shorter than fw characters" timeout=600 replay=fmt_pad:arr:a
     pad_inst!(pad_arr_a, pad_block_array, "a", 1);
-    //@harness name=pad_obj_a props=C19,C18 strength=bounded bound="s = 'a' (concrete), fw in 0..=8 and the '-' flag symbolic, previous output 'xy'" clause="padded field = s plus max(0, fw - chars(s)) spaces on the correct side; never shorter than fw characters" timeout=600 replay=fmt_pad:obj:a tier=thorough
+    //@harness name=pad_obj_a props=C19,C18 strength=bounded bound="s = 'a' (concrete), fw in 0..=8 and the '-' flag symbolic, previous output 'xy'" clause="padded field = s plus max(0, fw - chars(s)) spaces on the correct side; never shorter than fw characters" timeout=600 replay=fmt_pad:obj:a
     pad_inst!(pad_obj_a, pad_block_object, "a", 1);
     //@harness name=pad_arr_e2 props=C19,C18 strength=bounded bound="s = 'u{e9}' (concrete), fw in 0..=8 and the '-' flag symbolic, previous output 'xy'" clause="padded field = s plus max(0, fw - chars(s)) spaces on the correct side; never shorter than fw characters" timeout=600 replay=fmt_pad:arr:e2
     pad_inst!(pad_arr_e2, pad_block_array, "\u{e9}", 1);
-    //@harness name=pad_obj_e2 props=C19,C18 strength=bounded bound="s = 'u{e9}' (concrete), fw in 0..=8 and the '-' flag symbolic, previous output 'xy'" clause="padded field = s plus max(0, fw - chars(s)) spaces on the correct side; never shorter than fw characters" timeout=600 replay=fmt_pad:obj:e2 tier=thorough
+    //@harness name=pad_obj_e2 props=C19,C18 strength=bounded bound="s = 'u{e9}' (concrete), fw in 0..=8 and the '-' flag symbolic, previous output 'xy'" clause="padded field = s plus max(0, fw - chars(s)) spaces on the correct side; never shorter than fw characters" timeout=600 replay=fmt_pad:obj:e2
     pad_inst!(pad_obj_e2, pad_block_object, "\u{e9}", 1);
     //@harness name=pad_arr_e3 props=C19,C18 strength=bounded bound="s = 'u{20ac}' (concrete), fw in 0..=8 and the '-' flag symbolic, previous output 'xy'" clause="padded field = s plus max(0, fw - chars(s)) spaces on the correct side; never shorter than fw characters" timeout=600 replay=fmt_pad:arr:e3
     pad_inst!(pad_arr_e3, pad_block_array, "\u{20ac}", 1);
-    //@harness name=pad_obj_e3 props=C19,C18 strength=bounded bound="s = 'u{20ac}' (concrete), fw in 0..=8 and the '-' flag symbolic, previous output 'xy'" clause="padded field = s plus max(0, fw - chars(s)) spaces on the correct side; never shorter than fw characters" timeout=600 replay=fmt_pad:obj:e3 tier=thorough
+    //@harness name=pad_obj_e3 props=C19,C18 strength=bounded bound="s = 'u{20ac}' (concrete), fw in 0..=8 and the '-' flag symbolic, previous output 'xy'" clause="padded field = s plus max(0, fw - chars(s)) spaces on the correct side; never shorter than fw characters" timeout=600 replay=fmt_pad:obj:e3
     pad_inst!(pad_obj_e3, pad_block_object, "\u{20ac}", 1);
     //@harness name=pad_arr_e4 props=C19,C18 strength=bounded bound="s = 'u{1F600}' (concrete), fw in 0..=8 and the '-' flag symbolic, previous output 'xy'" clause="padded field = s plus max(0, fw - chars(s)) spaces on the correct side; never shorter than fw characters" timeout=600 replay=fmt_pad:arr:e4
     pad_inst!(pad_arr_e4, pad_block_array, "\u{1F600}", 1);
-    //@harness name=pad_obj_e4 props=C19,C18 strength=bounded bound="s = 'u{1F600}' (concrete), fw in 0..=8 and the '-' flag symbolic, previous output 'xy'" clause="padded field = s plus max(0, fw - chars(s)) spaces on the correct side; never shorter than fw characters" timeout=600 replay=fmt_pad:obj:e4 tier=thorough
+    //@harness name=pad_obj_e4 props=C19,C18 strength=bounded bound="s = 'u{1F600}' (concrete), fw in 0..=8 and the '-' flag symbolic, previous output 'xy'" clause="padded field = s plus max(0, fw - chars(s)) spaces on the correct side; never shorter than fw characters" timeout=600 replay=fmt_pad:obj:e4
     pad_inst!(pad_obj_e4, pad_block_object, "\u{1F600}", 1);
     //@harness name=pad_arr_ae2 props=C19,C18 strength=bounded bound="s = 'au{e9}' (concrete), fw in 0..=8 and the '-' flag symbolic, previous output 'xy'" clause="padded field = s plus max(0, fw - chars(s)) spaces on the correct side; never shorter than fw characters" timeout=600 replay=fmt_pad:arr:ae2
     pad_inst!(pad_arr_ae2, pad_block_array, "a\u{e9}", 2);
-    //@harness name=pad_obj_ae2 props=C19,C18 strength=bounded bound="s = 'au{e9}' (concrete), fw in 0..=8 and the '-' flag symbolic, previous output 'xy'" clause="padded field = s plus max(0, fw - chars(s)) spaces on the correct side; never shorter than fw characters" timeout=600 replay=fmt_pad:obj:ae2 tier=thorough
+    //@harness name=pad_obj_ae2 props=C19,C18 strength=bounded bound="s = 'au{e9}' (concrete), fw in 0..=8 and the '-' flag symbolic, previous output 'xy'" clause="padded field = s plus max(0, fw - chars(s)) spaces on the correct side; never shorter than fw characters" timeout=600 replay=fmt_pad:obj:ae2
     pad_inst!(pad_obj_ae2, pad_block_object, "a\u{e9}", 2);
     //@harness name=pad_arr_e2e2 props=C19,C18 strength=bounded bound="s = 'u{e9}u{e9}' (concrete), fw in 0..=8 and the '-' flag symbolic, previous output 'xy'" clause="padded field = s plus max(0, fw - chars(s)) spaces on the correct side; never shorter than fw characters" timeout=600 replay=fmt_pad:arr:e2e2
     pad_inst!(pad_arr_e2e2, pad_block_array, "\u{e9}\u{e9}", 2);
@@ -106,7 +106,7 @@ mod vharness {
     pad_inst!(pad_obj_e2e2, pad_block_object, "\u{e9}\u{e9}", 2);
     //@harness name=pad_arr_e2e3 props=C19,C18 strength=bounded bound="s = 'u{e9}u{20ac}' (concrete), fw in 0..=8 and the '-' flag symbolic, previous output 'xy'" clause="padded field = s plus max(0, fw - chars(s)) spaces on the correct side; never shorter than fw characters" timeout=600 replay=fmt_pad:arr:e2e3
     pad_inst!(pad_arr_e2e3, pad_block_array, "\u{e9}\u{20ac}", 2);
-    //@harness name=pad_obj_e2e3 props=C19,C18 strength=bounded bound="s = 'u{e9}u{20ac}' (concrete), fw in 0..=8 and the '-' flag symbolic, previous output 'xy'" clause="padded field = s plus max(0, fw - chars(s)) spaces on the correct side; never shorter than fw characters" timeout=600 replay=fmt_pad:obj:e2e3 tier=thorough
+    //@harness name=pad_obj_e2e3 props=C19,C18 strength=bounded bound="s = 'u{e9}u{20ac}' (concrete), fw in 0..=8 and the '-' flag symbolic, previous output 'xy'" clause="padded field = s plus max(0, fw - chars(s)) spaces on the correct side; never shorter than fw characters" timeout=600 replay=fmt_pad:obj:e2e3
     pad_inst!(pad_obj_e2e3, pad_block_object, "\u{e9}\u{20ac}", 2);
     //@harness name=pad_arr_ae4 props=C19,C18 strength=bounded bound="s = 'au{1F600}' (concrete), fw in 0..=8 and the '-' flag symbolic, previous output 'xy'" clause="padded field = s plus max(0, fw - chars(s)) spaces on the correct side; never shorter than fw characters" timeout=600 replay=fmt_pad:arr:ae4
     pad_inst!(pad_arr_ae4, pad_block_array, "a\u{1F600}", 2);
@@ -114,7 +114,7 @@ mod vharness {
     pad_inst!(pad_obj_ae4, pad_block_object, "a\u{1F600}", 2);
     //@harness name=pad_arr_e2e2e2 props=C19,C18 strength=bounded bound="s = 'u{e9}u{e9}u{e9}' (concrete), fw in 0..=8 and the '-' flag symbolic, previous output 'xy'" clause="padded field = s plus max(0, fw - chars(s)) spaces on the correct side; never shorter than fw characters" timeout=600 replay=fmt_pad:arr:e2e2e2
     pad_inst!(pad_arr_e2e2e2, pad_block_array, "\u{e9}\u{e9}\u{e9}", 3);
-    //@harness name=pad_obj_e2e2e2 props=C19,C18 strength=bounded bound="s = 'u{e9}u{e9}u{e9}' (concrete), fw in 0..=8 and the '-' flag symbolic, previous output 'xy'" clause="padded field = s plus max(0, fw - chars(s)) spaces on the correct side; never shorter than fw characters" timeout=600 replay=fmt_pad:obj:e2e2e2 tier=thorough
+    //@harness name=pad_obj_e2e2e2 props=C19,C18 strength=bounded bound="s = 'u{e9}u{e9}u{e9}' (concrete), fw in 0..=8 and the '-' flag symbolic, previous output 'xy'" clause="padded field = s plus max(0, fw - chars(s)) spaces on the correct side; never shorter than fw characters" timeout=600 replay=fmt_pad:obj:e2e2e2
     pad_inst!(pad_obj_e2e2e2, pad_block_object, "\u{e9}\u{e9}\u{e9}", 3);
 
     // ---- precision plumbing: the precision handed to format! is accepted for EVERY requested
